@@ -122,6 +122,32 @@ pub fn check(exec: &mut Exec, opts: &ROpts, sse: bool, append_ctx: u128) -> Resu
                     format!("following GET / ({what}): after two live appends ({}, ephemeral {}) the stream carries {:?}, expected {:?} (closed={closed})", a.id, b.id, ids(&fr), want2),
                 ));
             }
+            // a head-follow opened on a topic that has no frame yet delivers what is appended to it
+            let req = crate::http::Req::new("GET", &format!("/head/fresh.topic?follow=true&context={}", id_str(append_ctx)));
+            let mut conn = crate::http::Conn::open(&sock).map_err(|e| Fail::new(Class::Http, format!("head-follow: {e:?}")))?;
+            conn.send(&req.to_bytes()).ok();
+            let (status, headers) = conn
+                .read_head(Instant::now() + Duration::from_secs(20))
+                .map_err(|e| Fail::new(Class::Http, format!("GET /head/fresh.topic?follow: {e:?}")))?;
+            checks += 1;
+            if status != 200 {
+                return Err(Fail::new(Class::Follow, format!("GET /head/<topic without frames>?follow answered {status}: the follower never gets what is appended afterwards")));
+            }
+            let h1 = must("append", exec.append(&fspec("fresh.topic", append_ctx, None), None))?;
+            let h2 = must("append", exec.append(&fspec("fresh.topic", append_ctx, Some(WTtl::Ephemeral)), None))?;
+            let mut acc = Vec::new();
+            let chunked = crate::http::is_chunked(&headers);
+            let ended = conn
+                .read_stream(chunked, Duration::from_secs(10), |b| String::from_utf8_lossy(b).contains(&h2.id), &mut acc)
+                .map_err(|e| Fail::new(Class::Http, format!("head-follow stream: {e:?}")))?;
+            let text = String::from_utf8_lossy(&acc).to_string();
+            let (p1, p2) = (text.find(&h1.id), text.find(&h2.id));
+            if ended || p1.is_none() || p2.is_none() || p1 > p2 {
+                return Err(Fail::new(
+                    Class::Follow,
+                    format!("head-follow on a topic that had no frame: appended {} then {} (ephemeral), the stream carried {:?} (ended={ended})", h1.id, h2.id, text.chars().take(300).collect::<String>()),
+                ));
+            }
             if fr.iter().filter(|w| w.topic == "xs.threshold").count() != want_thr {
                 return Err(Fail::new(Class::Follow, format!("following GET / ({what}) carried {} xs.threshold markers", fr.iter().filter(|w| w.topic == "xs.threshold").count())));
             }
